@@ -432,6 +432,19 @@ class LibMixin:
             return st.alloc(HSet(INT, dom, size))
         raise VCError("set() of %r at line %d" % (v, node.lineno))
 
+    def b_dict(self, node, st):
+        if not node.args:
+            raise VCError("dict() without argument at line %d" % node.lineno)
+        v = self.eval(node.args[0], st)
+        o = st.obj(v)
+        if isinstance(o, HDict):
+            return st.alloc(o.clone())   # a new dictionary object with the same entries
+        raise VCError("dict() of %r at line %d" % (o, node.lineno))
+
+    def b_List(self, node, st):
+        # numba.typed.List(): an empty list whose element type comes from the contract's local_types at the assignment
+        return st.alloc(HArr("int", fresh("lst", arr_sort("int")), zint(0), is_list=True))
+
     def b_print(self, node, st):
         return NONE
 
